@@ -273,6 +273,11 @@ func usesObj(in ssa.Instruction, obj ssa.Value) bool {
 
 // ruleA13 checks the functions of the given module-relative packages.
 func ruleA13(r *Run, p *Prog, rels map[string]bool, rules string) *a13 {
+	return ruleA13Filtered(r, p, rels, rules, nil)
+}
+
+// ruleA13Filtered: like ruleA13, restricted to the functions selected by only (nil = all).
+func ruleA13Filtered(r *Run, p *Prog, rels map[string]bool, rules string, only func(root *ssa.Function) bool) *a13 {
 	a := newA13(r, p)
 	// functions are judged with their private helpers inlined (a helper that returns a pooled
 	// object's buffer after putting it back is a use-after-put in its caller); the put wrappers
@@ -291,6 +296,9 @@ func ruleA13(r *Run, p *Prog, rels map[string]bool, rules string) *a13 {
 		return false
 	}
 	for _, f := range p.RootViews(relList, "keep-put-wrappers", isPutWrapper) {
+		if only != nil && !only(viewRoot(f)) {
+			continue
+		}
 		a.checkFunc(f, rules)
 	}
 	r.Count("a13_pooled_types", len(a.pooled))
